@@ -219,6 +219,26 @@ def chk_coords(case, acc, seed):
             acc.violation('coords:nonzero-outside-mask', dict(case, j=j), 'mode is non-zero outside the mask')
         if rm.maxerr(z, zb) > 1e-12:
             acc.violation('coords:depends-on-mask-values', dict(case, j=j), 'mode depends on the mask values, not only on its support')
+    if val == 1:
+        modes = [4, 2, 7, 1, 11]
+        for normalize in (True, False):
+            single = np.array([np.asarray(lentil.zernike(mask, j, normalize=normalize), dtype=float) for j in modes])
+            for vectorize in (False, True):
+                B = np.asarray(lentil.zernike_basis(mask, modes, vectorize=vectorize, normalize=normalize), dtype=float)
+                want = single.reshape(len(modes), -1) if vectorize else single
+                if B.shape != want.shape or rm.maxerr(B, want) > 1e-12:
+                    acc.violation(f'basis:vectorize={vectorize}:normalize={normalize}', dict(case, vectorize=vectorize, normalize=normalize),
+                                  'zernike_basis rows differ from zernike() of the same modes with the same normalisation')
+            # supplied coordinates, every keyword combination
+            rho_s, th_s = lentil.zernike_coordinates(mask, shift=(0.25, -0.5), rotate=15)
+            for vectorize in (False, True):
+                B = np.asarray(lentil.zernike_basis(mask, modes, vectorize=vectorize, normalize=normalize, rho=rho_s, theta=th_s), dtype=float)
+                want = np.array([np.asarray(lentil.zernike(mask, j, normalize=normalize, rho=rho_s, theta=th_s), dtype=float) for j in modes])
+                if rm.maxerr(B.reshape(want.shape), want) > 1e-12:
+                    acc.violation(f'basis:supplied-coords:vectorize={vectorize}:normalize={normalize}', dict(case, vectorize=vectorize, normalize=normalize), 'basis with supplied coordinates differs from zernike()')
+        sc = lentil.zernike_basis(mask, 3)
+        if np.asarray(sc).shape != (1,) + shape or rm.maxerr(np.asarray(sc)[0], np.asarray(lentil.zernike(mask, 3), dtype=float)) > 1e-12:
+            acc.violation('basis:scalar-mode', case, 'zernike_basis with a scalar mode')
     z2 = np.asarray(lentil.zernike(mask, 2), dtype=float)
     z3 = np.asarray(lentil.zernike(mask, 3), dtype=float)
     if len(pts) >= 3 and dmax > 0:
@@ -253,7 +273,7 @@ def t_coords(arg, acc):
         for r0 in range(0, shape[0] - sm.shape[0] + 1):
             for c0 in range(0, shape[1] - sm.shape[1] + 1):
                 acc.states += 1
-                for val in (1, 0.3, 5):
+                for val in (1, 0.3, 5, 1e-17, -2.0):
                     acc.transitions += 1
                     chk_coords({'kind': 'coords', 'shape': shape, 'mask': name, 'pos': (r0, c0), 'val': val}, acc, arg['seed'])
                 if name in ('disc4', 'disc5', 'L'):
